@@ -354,3 +354,831 @@ Proof.
   intros solver p w depth g x0of E th0 ds k Hu Hk Hs Hext. apply Hext.
   intros l. eapply stress_iteration_function_rot; eassumption.
 Qed.
+
+(* ------------------------------------------------------------------ *)
+(* mirror image: east component kept, north component negated            *)
+(* ------------------------------------------------------------------ *)
+Definition flip2 (v : R * R) : R * R := (fst v, - snd v).
+
+Lemma rsum_cos_mirror : forall N (X : nat -> R), (0 < N)%nat ->
+  rsum (fun j => cos (ang 0 N j) * X (midx N j)) N = rsum (fun j => cos (ang 0 N j) * X j) N.
+Proof.
+  intros N X HN.
+  rewrite (rsum_ext _ (fun j => (fun m => cos (ang 0 N m) * X m) (midx N j)) N).
+  2:{ intros j Hj. cbv beta. rewrite (cos_abs_mirror N j Hj). reflexivity. }
+  apply (rsum_midx (fun m => cos (ang 0 N m) * X m)). exact HN.
+Qed.
+
+Lemma rsum_sin_mirror : forall N (X : nat -> R), (0 < N)%nat ->
+  rsum (fun j => sin (ang 0 N j) * X (midx N j)) N = - rsum (fun j => sin (ang 0 N j) * X j) N.
+Proof.
+  intros N X HN.
+  rewrite (rsum_ext _ (fun j => (fun m => (-1) * (sin (ang 0 N m) * X m)) (midx N j)) N).
+  2:{ intros j Hj. cbv beta. rewrite (sin_abs_mirror N j Hj). ring. }
+  rewrite (rsum_midx (fun m => (-1) * (sin (ang 0 N m) * X m))) by exact HN.
+  rewrite rsum_scal. ring.
+Qed.
+
+Theorem resolved_stress_mirror : forall p g ks ds S' S,
+  uniform_dirs g 0 ds -> (0 < ndir g)%nat -> mirrored (nfreq g) (ndir g) S' S ->
+  resolved_stress p g ks S' = flip2 (resolved_stress p g ks S).
+Proof.
+  intros p g ks ds S' S Hu HN Hsh.
+  unfold resolved_stress. cbv zeta. rewrite !sum2_upto_rsum.
+  set (X := fun i m => ds * fnth S i m * (rnth ks i / gw g i * gdf g i)).
+  assert (Hc' : forall i, (i < nfreq g)%nat ->
+     rsum (fun j => cos (gth g j) * gdth g j * fnth S' i j * (rnth ks i / gw g i * gdf g i)) (ndir g)
+     = rsum (fun j => cos (gth g j) * gdth g j * fnth S i j * (rnth ks i / gw g i * gdf g i)) (ndir g)).
+  { intros i Hi.
+    transitivity (rsum (fun j => cos (ang 0 (ndir g) j) * X i (midx (ndir g) j)) (ndir g)).
+    - apply rsum_ext. intros j Hj. destruct (Hu j Hj) as [-> ->]. rewrite (Hsh i j Hi Hj). unfold X. ring.
+    - rewrite rsum_cos_mirror by exact HN. apply rsum_ext. intros j Hj.
+      destruct (Hu j Hj) as [-> ->]. unfold X. ring. }
+  assert (Hs' : forall i, (i < nfreq g)%nat ->
+     rsum (fun j => sin (gth g j) * gdth g j * fnth S' i j * (rnth ks i / gw g i * gdf g i)) (ndir g)
+     = (-1) * rsum (fun j => sin (gth g j) * gdth g j * fnth S i j * (rnth ks i / gw g i * gdf g i)) (ndir g)).
+  { intros i Hi.
+    transitivity (rsum (fun j => sin (ang 0 (ndir g) j) * X i (midx (ndir g) j)) (ndir g)).
+    - apply rsum_ext. intros j Hj. destruct (Hu j Hj) as [-> ->]. rewrite (Hsh i j Hi Hj). unfold X. ring.
+    - rewrite rsum_sin_mirror by exact HN.
+      replace (- rsum (fun j => sin (ang 0 (ndir g) j) * X i j) (ndir g))
+        with ((-1) * rsum (fun j => sin (ang 0 (ndir g) j) * X i j) (ndir g)) by ring.
+      f_equal. apply rsum_ext. intros j Hj. destruct (Hu j Hj) as [-> ->]. unfold X. ring. }
+  rewrite (rsum_ext _ _ (nfreq g) Hc'), (rsum_ext _ _ (nfreq g) Hs').
+  rewrite rsum_scal. unfold flip2. cbn [fst snd]. f_equal. ring.
+Qed.
+
+Theorem tail_stress_mirror : forall p w z0 g x0 E ds,
+  uniform_dirs g 0 ds -> (0 < ndir g)%nat -> well_shaped g E ->
+  tail_stress_wam p (mir_wind w) z0 g x0 (mir_field E) = flip2 (tail_stress_wam p w z0 g x0 E).
+Proof.
+  intros p w z0 g x0 E ds Hu HN Hs.
+  unfold tail_stress_wam. cbv zeta.
+  rewrite fv_mir, mir_wind_rad.
+  set (wdr := wdir w * PI / 180).
+  rewrite !sum_upto_rsum.
+  set (last := (nfreq g - 1)%nat).
+  set (X := fun m => let cm := cos (ang 0 (ndir g) m - wdr) in
+                     if Rle_dec cm 0 then 0 else cm ^ 2 * fnth E last m * ds).
+  assert (Hterm' : forall trig j, (j < ndir g)%nat ->
+     tail_dir_term g (- wdr) (mir_field E) trig j = trig (ang 0 (ndir g) j) * X (midx (ndir g) j)).
+  { intros trig j Hj. unfold tail_dir_term, X. cbv zeta. fold last.
+    destruct (Hu j Hj) as [-> ->].
+    rewrite cos_rel_mirror by assumption.
+    destruct (le_lt_dec (nfreq g) last) as [Hl|Hl].
+    - unfold fnth at 1. unfold mir_field.
+      rewrite (nth_overflow (map mir_row E)) by (rewrite map_length; destruct Hs as [-> _]; exact Hl).
+      unfold fnth. rewrite (nth_overflow E) by (destruct Hs as [-> _]; exact Hl).
+      destruct j; destruct (midx (ndir g) _); destruct (Rle_dec _ 0); cbn; ring.
+    - rewrite (mir_field_mirrored g E Hs last j Hl Hj).
+      destruct (Rle_dec _ 0); ring. }
+  assert (Hterm : forall trig j, (j < ndir g)%nat ->
+     tail_dir_term g wdr E trig j = trig (ang 0 (ndir g) j) * X j).
+  { intros trig j Hj. unfold tail_dir_term, X. cbv zeta. fold last.
+    destruct (Hu j Hj) as [-> ->]. destruct (Rle_dec _ 0); ring. }
+  rewrite (rsum_ext _ _ (ndir g) (Hterm' cos)), (rsum_ext _ _ (ndir g) (Hterm' sin)).
+  rewrite (rsum_ext _ _ (ndir g) (Hterm cos)), (rsum_ext _ _ (ndir g) (Hterm sin)).
+  rewrite rsum_cos_mirror, rsum_sin_mirror by exact HN.
+  rewrite cos_neg, sin_neg. unfold flip2. cbn [fst snd]. f_equal; ring.
+Qed.
+
+Theorem total_stress_vec_mirror : forall p w depth z0 g x0 E ds,
+  uniform_dirs g 0 ds -> (0 < ndir g)%nat -> well_shaped g E ->
+  total_stress_vec p (mir_wind w) depth z0 g x0 (mir_field E)
+  = flip2 (total_stress_vec p w depth z0 g x0 E).
+Proof.
+  intros p w depth z0 g x0 E ds Hu HN Hs.
+  unfold total_stress_vec. cbv zeta.
+  rewrite (resolved_stress_mirror p g _ ds _ (st4_input p w depth z0 g E) Hu HN
+             (st4_input_mirror p w depth z0 g E ds Hu Hs)).
+  rewrite (tail_stress_mirror p w z0 g x0 E ds Hu HN Hs).
+  rewrite fv_mir, mir_wind_rad.
+  rewrite cos_neg, sin_neg. unfold flip2. cbn [fst snd]. f_equal; ring.
+Qed.
+
+Lemma dir_deg_flip : forall v, (fst v <> 0 \/ snd v <> 0) ->
+  let d := dir_deg (snd v) (fst v) in
+  let d' := dir_deg (snd (flip2 v)) (fst (flip2 v)) in
+  cos (d' * PI / 180) = cos (- d * PI / 180) /\ sin (d' * PI / 180) = sin (- d * PI / 180).
+Proof.
+  intros v H d d'.
+  destruct (dir_deg_spec (fst v) (snd v) H) as [Hc Hs].
+  assert (H' : fst (flip2 v) <> 0 \/ snd (flip2 v) <> 0).
+  { unfold flip2. cbn [fst snd]. destruct H; [left; assumption|right; lra]. }
+  destruct (dir_deg_spec _ _ H') as [Hc' Hs'].
+  fold d in Hc, Hs. fold d' in Hc', Hs'.
+  replace (- d * PI / 180) with (- (d * PI / 180)) by (unfold Rdiv; ring).
+  rewrite Hc', Hs', cos_neg, sin_neg, Hc, Hs.
+  unfold flip2. cbn [fst snd].
+  replace ((- snd v) ^ 2) with (snd v ^ 2) by ring.
+  pose proof (norm_pos _ _ H) as Hr. split; [reflexivity|field; lra].
+Qed.
+
+Theorem total_stress_point_mirror : forall p w depth z0 g x0 E ds,
+  uniform_dirs g 0 ds -> (0 < ndir g)%nat -> well_shaped g E ->
+  friction_velocity p w z0 <> 0 ->
+  let v := total_stress_vec p w depth z0 g x0 E in
+  (fst v <> 0 \/ snd v <> 0) ->
+  exists d d',
+    total_stress_point p w depth z0 g x0 E = (sqrt (snd v ^ 2 + fst v ^ 2), Some d) /\
+    total_stress_point p (mir_wind w) depth z0 g x0 (mir_field E) = (sqrt (snd v ^ 2 + fst v ^ 2), Some d') /\
+    0 <= d' < 360 /\
+    cos (d' * PI / 180) = cos (- d * PI / 180) /\ sin (d' * PI / 180) = sin (- d * PI / 180).
+Proof.
+  intros p w depth z0 g x0 E ds Hu HN Hs Hfv v Hv.
+  unfold total_stress_point. rewrite fv_mir.
+  destruct (Req_EM_T (friction_velocity p w z0) 0) as [Hz|_]; [contradiction|].
+  cbv zeta. rewrite (total_stress_vec_mirror p w depth z0 g x0 E ds Hu HN Hs). fold v.
+  eexists. eexists. split; [reflexivity|]. split.
+  - unfold flip2. cbn [fst snd]. replace ((- snd v) ^ 2) with (snd v ^ 2) by ring. reflexivity.
+  - split; [apply dir_deg_range|]. exact (dir_deg_flip v Hv).
+Qed.
+
+(* ------------------------------------------------------------------ *)
+(* dissipation-weighted wave direction                                   *)
+(* ------------------------------------------------------------------ *)
+Lemma fold_sub_rsum : forall (f : nat -> R) n acc,
+  fold_left (fun a j => a - f j) (seq 0 n) acc = acc - rsum f n.
+Proof.
+  intros f n. induction n as [|n IH]; intros acc.
+  - simpl. lra.
+  - rewrite seq_S, fold_left_app. simpl. rewrite IH. lra.
+Qed.
+
+Lemma fold2_sub_rsum : forall (f : nat -> nat -> R) n m acc,
+  fold_left (fun a i => fold_left (fun a' j => a' - f i j) (seq 0 m) a) (seq 0 n) acc
+  = acc - rsum (fun i => rsum (f i) m) n.
+Proof.
+  intros f n m. induction n as [|n IH]; intros acc.
+  - simpl. lra.
+  - rewrite seq_S, fold_left_app. simpl. rewrite IH, fold_sub_rsum. lra.
+Qed.
+
+Lemma diss_k_vector_sums : forall g ks D,
+  diss_k_vector g ks D
+  = (- rsum (fun i => rsum (fun j => rnth ks i * cos (gth g j) * fnth D i j * gdf g i * gdth g j) (ndir g)) (nfreq g),
+     - rsum (fun i => rsum (fun j => rnth ks i * sin (gth g j) * fnth D i j * gdf g i * gdth g j) (ndir g)) (nfreq g)).
+Proof.
+  intros. unfold diss_k_vector. cbv zeta.
+  rewrite (fold2_sub_rsum (fun i j => rnth ks i * cos (gth g j) * fnth D i j * gdf g i * gdth g j)).
+  rewrite (fold2_sub_rsum (fun i j => rnth ks i * sin (gth g j) * fnth D i j * gdf g i * gdth g j)).
+  f_equal; ring.
+Qed.
+
+Theorem diss_k_vector_rot : forall g ks th0 ds k D' D,
+  uniform_dirs g th0 ds -> (k < ndir g)%nat -> shifted (nfreq g) (ndir g) k D' D ->
+  diss_k_vector g ks D' = rotate2 (rot_angle k (ndir g)) (diss_k_vector g ks D).
+Proof.
+  intros g ks th0 ds k D' D Hu Hk Hsh. rewrite !diss_k_vector_sums.
+  set (a := rot_angle k (ndir g)).
+  set (X := fun i m => rnth ks i * fnth D i m * gdf g i * ds).
+  assert (Hc' : forall i, (i < nfreq g)%nat ->
+     rsum (fun j => rnth ks i * cos (gth g j) * fnth D' i j * gdf g i * gdth g j) (ndir g)
+     = cos a * rsum (fun j => cos (ang th0 (ndir g) j) * X i j) (ndir g)
+       - sin a * rsum (fun j => sin (ang th0 (ndir g) j) * X i j) (ndir g)).
+  { intros i Hi. unfold a, rot_angle. rewrite <- (rsum_cos_rot (ndir g) k th0 (X i) Hk).
+    apply rsum_ext. intros j Hj. destruct (Hu j Hj) as [-> ->]. rewrite (Hsh i j Hi Hj). unfold X. ring. }
+  assert (Hs' : forall i, (i < nfreq g)%nat ->
+     rsum (fun j => rnth ks i * sin (gth g j) * fnth D' i j * gdf g i * gdth g j) (ndir g)
+     = sin a * rsum (fun j => cos (ang th0 (ndir g) j) * X i j) (ndir g)
+       + cos a * rsum (fun j => sin (ang th0 (ndir g) j) * X i j) (ndir g)).
+  { intros i Hi. unfold a, rot_angle. rewrite <- (rsum_sin_rot (ndir g) k th0 (X i) Hk).
+    apply rsum_ext. intros j Hj. destruct (Hu j Hj) as [-> ->]. rewrite (Hsh i j Hi Hj). unfold X. ring. }
+  assert (Hc : forall i, (i < nfreq g)%nat ->
+     rsum (fun j => rnth ks i * cos (gth g j) * fnth D i j * gdf g i * gdth g j) (ndir g)
+     = rsum (fun j => cos (ang th0 (ndir g) j) * X i j) (ndir g)).
+  { intros i _. apply rsum_ext. intros j Hj. destruct (Hu j Hj) as [-> ->]. unfold X. ring. }
+  assert (Hs : forall i, (i < nfreq g)%nat ->
+     rsum (fun j => rnth ks i * sin (gth g j) * fnth D i j * gdf g i * gdth g j) (ndir g)
+     = rsum (fun j => sin (ang th0 (ndir g) j) * X i j) (ndir g)).
+  { intros i _. apply rsum_ext. intros j Hj. destruct (Hu j Hj) as [-> ->]. unfold X. ring. }
+  rewrite (rsum_ext _ _ (nfreq g) Hc'), (rsum_ext _ _ (nfreq g) Hs').
+  rewrite (rsum_ext _ _ (nfreq g) Hc), (rsum_ext _ _ (nfreq g) Hs).
+  rewrite rsum_rot_lin1, rsum_rot_lin2. unfold rotate2. cbn [fst snd]. f_equal; ring.
+Qed.
+
+(* the mean direction of any dissipation field that shifts with the spectrum turns by alpha *)
+Theorem diss_direction_rot : forall depth g th0 ds k D' D,
+  uniform_dirs g th0 ds -> (k < ndir g)%nat -> shifted (nfreq g) (ndir g) k D' D ->
+  let v := diss_k_vector g (wavenumbers GRAV depth (g_w g)) D in
+  (fst v <> 0 \/ snd v <> 0) ->
+  cos (diss_direction depth g D' * PI / 180)
+    = cos ((diss_direction depth g D + INR k * (360 / INR (ndir g))) * PI / 180) /\
+  sin (diss_direction depth g D' * PI / 180)
+    = sin ((diss_direction depth g D + INR k * (360 / INR (ndir g))) * PI / 180).
+Proof.
+  intros depth g th0 ds k D' D Hu Hk Hsh v Hv.
+  assert (HN : (0 < ndir g)%nat) by lia.
+  unfold diss_direction. cbv zeta.
+  rewrite (diss_k_vector_rot g _ th0 ds k D' D Hu Hk Hsh). fold v.
+  rewrite wind_rot_rad by exact HN.
+  exact (dir_deg_rotate (rot_angle k (ndir g)) v Hv).
+Qed.
+
+(* ------------------------------------------------------------------ *)
+(* ST6: the directional integral is invariant, the field shifts          *)
+(* ------------------------------------------------------------------ *)
+Lemma dir_integrate_shift : forall g th0 ds k S' S,
+  uniform_dirs g th0 ds -> (k < ndir g)%nat -> shifted (nfreq g) (ndir g) k S' S ->
+  dir_integrate g S' = dir_integrate g S.
+Proof.
+  intros g th0 ds k S' S Hu Hk Hsh. unfold dir_integrate.
+  apply map_ext_in. intros i Hi. apply in_seq in Hi. rewrite !sum_upto_rsum.
+  rewrite (rsum_ext _ (fun j => (fun m => fnth S i m * ds) (ridx (ndir g) j k)) (ndir g)).
+  2:{ intros j Hj. cbv beta. rewrite (Hsh i j) by lia. destruct (Hu j Hj) as [_ ->]. reflexivity. }
+  rewrite (rsum_ridx (fun m => fnth S i m * ds)) by exact Hk.
+  apply rsum_ext. intros j Hj. destruct (Hu j Hj) as [_ ->]. reflexivity.
+Qed.
+
+Theorem st6_diss_k_rot : forall q g ks cgs E th0 ds k,
+  uniform_dirs g th0 ds -> (k < ndir g)%nat -> well_shaped g E ->
+  shifted (nfreq g) (ndir g) k (st6_dissipation_k q g ks cgs (rot_field k E)) (st6_dissipation_k q g ks cgs E).
+Proof.
+  intros q g ks cgs E th0 ds k Hu Hk Hs i j Hi Hj.
+  assert (HN : (0 < ndir g)%nat) by lia.
+  pose proof (ridx_lt (ndir g) j k HN) as Hr.
+  pose proof (rot_field_shifted g E k Hs Hk) as Hsh.
+  unfold st6_dissipation_k. cbv zeta. rewrite !fnth_mk_field by assumption.
+  unfold st6_inherent, st6_cumulative. rewrite !fnth_mk_field by assumption.
+  unfold st6_exceedence. rewrite (dir_integrate_shift g th0 ds k _ E Hu Hk Hsh).
+  rewrite (Hsh i j Hi Hj). reflexivity.
+Qed.
+
+Theorem st6_diss_rot : forall q depth g E th0 ds k,
+  uniform_dirs g th0 ds -> (k < ndir g)%nat -> well_shaped g E ->
+  shifted (nfreq g) (ndir g) k (st6_dissipation q depth g (rot_field k E)) (st6_dissipation q depth g E).
+Proof. intros. unfold st6_dissipation. cbv zeta. eapply st6_diss_k_rot; eassumption. Qed.
+
+(* ------------------------------------------------------------------ *)
+(* ST4 whitecapping                                                     *)
+(* ------------------------------------------------------------------ *)
+Lemma mutual_angle_rot : forall N th0 j jj k, (j < N)%nat -> (jj < N)%nat -> (k < N)%nat ->
+  mutual_angle (ang th0 N jj) (ang th0 N j)
+  = mutual_angle (ang th0 N (ridx N jj k)) (ang th0 N (ridx N j k)).
+Proof.
+  intros N th0 j jj k Hj Hjj Hk. unfold mutual_angle.
+  destruct (ang_rot N j k th0 Hj Hk) as [m2 H2]. destruct (ang_rot N jj k th0 Hjj Hk) as [m1 H1].
+  assert (HP : 2 * PI <> 0) by (pose proof PI_RGT_0; lra).
+  replace (ang th0 N jj - ang th0 N j + PI)
+    with (ang th0 N (ridx N jj k) - ang th0 N (ridx N j k) + PI + IZR (m1 - m2) * (2 * PI))
+    by (rewrite H1, H2, minus_IZR; ring).
+  rewrite pymod_period by exact HP. reflexivity.
+Qed.
+
+Lemma band_saturation_rot : forall q g ks cgs E th0 ds k,
+  uniform_dirs g th0 ds -> (k < ndir g)%nat -> well_shaped g E ->
+  shifted (nfreq g) (ndir g) k (band_saturation q g ks cgs (rot_field k E)) (band_saturation q g ks cgs E).
+Proof.
+  intros q g ks cgs E th0 ds k Hu Hk Hs i j Hi Hj.
+  assert (HN : (0 < ndir g)%nat) by lia.
+  pose proof (ridx_lt (ndir g) j k HN) as Hr.
+  pose proof (rot_field_shifted g E k Hs Hk) as Hsh.
+  unfold band_saturation. rewrite !fnth_mk_field by assumption. rewrite !sum_upto_rsum.
+  rewrite (rsum_ext _ (fun jj => (fun m => band_term q g ks cgs E i (ridx (ndir g) j k) m) (ridx (ndir g) jj k)) (ndir g)).
+  2:{ intros jj Hjj. cbv beta. unfold band_term. cbv zeta.
+      pose proof (ridx_lt (ndir g) jj k HN) as Hrr.
+      destruct (Hu j Hj) as [-> _]. destruct (Hu jj Hjj) as [-> ->].
+      destruct (Hu _ Hr) as [-> _]. destruct (Hu _ Hrr) as [-> ->].
+      rewrite (mutual_angle_rot (ndir g) th0 j jj k Hj Hjj Hk).
+      rewrite (Hsh i jj Hi Hjj). reflexivity. }
+  apply (rsum_ridx (fun m => band_term q g ks cgs E i (ridx (ndir g) j k) m)). exact Hk.
+Qed.
+
+(* the maximum of a row does not change when the row is shifted *)
+Lemma fold_Rmax_spec : forall l x,
+  (forall y, In y (x :: l) -> y <= fold_left Rmax l x) /\ In (fold_left Rmax l x) (x :: l).
+Proof.
+  induction l as [|z l IH]; intros x.
+  - simpl. split; [intros y [->|[]]; lra|left; reflexivity].
+  - cbn [fold_left]. destruct (IH (Rmax x z)) as [Hub Hin]. split.
+    + intros y [->|[->|Hy]].
+      * eapply Rle_trans; [apply Rmax_l|]. apply Hub. left. reflexivity.
+      * eapply Rle_trans; [apply Rmax_r|]. apply Hub. left. reflexivity.
+      * apply Hub. right. exact Hy.
+    + destruct Hin as [Heq|Hin].
+      * rewrite <- Heq. unfold Rmax. destruct (Rle_dec x z); [right; left; reflexivity|left; reflexivity].
+      * right. right. exact Hin.
+Qed.
+
+Lemma row_max_spec : forall l, l <> [] ->
+  (forall y, In y l -> y <= row_max l) /\ In (row_max l) l.
+Proof. intros [|x l] H; [contradiction|]. unfold row_max. apply fold_Rmax_spec. Qed.
+
+Lemma row_max_same_elements : forall l l', l <> [] -> l' <> [] ->
+  (forall y, In y l -> In y l') -> (forall y, In y l' -> In y l) -> row_max l = row_max l'.
+Proof.
+  intros l l' Hl Hl' H1 H2.
+  destruct (row_max_spec l Hl) as [Ub In1]. destruct (row_max_spec l' Hl') as [Ub' In2].
+  apply Rle_antisym; [apply Ub'; apply H1; exact In1|apply Ub; apply H2; exact In2].
+Qed.
+
+Lemma ridx_surj : forall N m k, (m < N)%nat -> (k < N)%nat ->
+  exists j, (j < N)%nat /\ ridx N j k = m.
+Proof.
+  intros N m k Hm Hk. exists ((m + k) mod N)%nat. split; [apply Nat.mod_upper_bound; lia|].
+  unfold ridx. destruct (le_lt_dec N (m + k)) as [H|H].
+  - replace ((m + k) mod N)%nat with (m + k - N)%nat.
+    + replace (m + k - N + N - k)%nat with m by lia. apply Nat.mod_small. exact Hm.
+    + replace (m + k)%nat with ((m + k - N) + 1 * N)%nat at 2 by lia.
+      rewrite Nat.mod_add by lia. symmetry. apply Nat.mod_small. lia.
+  - rewrite (Nat.mod_small (m + k)) by exact H.
+    replace (m + k + N - k)%nat with (m + 1 * N)%nat by lia.
+    rewrite Nat.mod_add by lia. apply Nat.mod_small. exact Hm.
+Qed.
+
+Lemma row_max_shift : forall N k (f : nat -> R), (k < N)%nat ->
+  row_max (map (fun j => f (ridx N j k)) (seq 0 N)) = row_max (map f (seq 0 N)).
+Proof.
+  intros N k f Hk.
+  assert (HN : (0 < N)%nat) by lia.
+  apply row_max_same_elements.
+  - destruct N; [lia|]. simpl. discriminate.
+  - destruct N; [lia|]. simpl. discriminate.
+  - intros y Hy. apply in_map_iff in Hy. destruct Hy as (j & <- & Hj). apply in_seq in Hj.
+    apply in_map_iff. exists (ridx N j k). split; [reflexivity|]. apply in_seq.
+    pose proof (ridx_lt N j k HN). lia.
+  - intros y Hy. apply in_map_iff in Hy. destruct Hy as (m & <- & Hm). apply in_seq in Hm.
+    destruct (ridx_surj N m k) as (j & Hj & Hr); [lia|exact Hk|].
+    apply in_map_iff. exists j. split; [rewrite Hr; reflexivity|]. apply in_seq. lia.
+Qed.
+
+Lemma st4_saturation_rot : forall q g B' B E' E k,
+  (k < ndir g)%nat ->
+  shifted (nfreq g) (ndir g) k E' E ->
+  (forall i, (i < nfreq g)%nat ->
+     nth i B' [] = map (fun j => fnth B i (ridx (ndir g) j k)) (seq 0 (ndir g)) /\
+     nth i B [] = map (fun j => fnth B i j) (seq 0 (ndir g))) ->
+  shifted (nfreq g) (ndir g) k (st4_saturation_breaking q g B' E') (st4_saturation_breaking q g B E).
+Proof.
+  intros q g B' B E' E k Hk HE HB i j Hi Hj.
+  assert (HN : (0 < ndir g)%nat) by lia.
+  pose proof (ridx_lt (ndir g) j k HN) as Hr.
+  unfold st4_saturation_breaking. destruct (Rgt_dec (sb_const q) 0).
+  - rewrite !fnth_mk_field by assumption.
+    destruct (HB i Hi) as [HB1 HB2].
+    assert (Hmax : row_max (nth i B' []) = row_max (nth i B [])).
+    { rewrite HB1, HB2. apply (row_max_shift (ndir g) k (fun j => fnth B i j) Hk). }
+    assert (Hb : fnth B' i j = fnth B i (ridx (ndir g) j k)).
+    { unfold fnth at 1. rewrite HB1. apply (rnth_map_seq (fun j => fnth B i (ridx (ndir g) j k))). exact Hj. }
+    rewrite Hmax, Hb, (HE i j Hi Hj). reflexivity.
+  - rewrite !fnth_mk_field by assumption. reflexivity.
+Qed.
+
+(* cumulative term *)
+Lemma cum_row_rsum : forall g cs ss speeds cgs thr ce cn i' acc,
+  cum_row g cs ss speeds cgs thr ce cn i' acc
+  = acc + rsum (fun j' =>
+       let t := fnth thr i' j' in
+       if Rle_dec t 0 then 0
+       else gdf g i' * gdth g j'
+            * sqrt ((rnth cs j' * rnth speeds i' - ce) ^ 2 + (rnth ss j' * rnth speeds i' - cn) ^ 2)
+            * (t ^ 2 * cum_jacobian (rnth cgs i'))) (ndir g).
+Proof.
+  intros. unfold cum_row.
+  assert (H : forall n s a,
+    fold_left (fun a j' =>
+       let t := fnth thr i' j' in
+       if Rle_dec t 0 then a
+       else let integrant := t ^ 2 * cum_jacobian (rnth cgs i') in
+            let de := rnth cs j' * rnth speeds i' - ce in
+            let dn := rnth ss j' * rnth speeds i' - cn in
+            let dmag := sqrt (de ^ 2 + dn ^ 2) in
+            a + gdf g i' * gdth g j' * dmag * integrant) (seq s n) a
+    = a + rsum (fun j => (fun j' =>
+       let t := fnth thr i' j' in
+       if Rle_dec t 0 then 0
+       else gdf g i' * gdth g j'
+            * sqrt ((rnth cs j' * rnth speeds i' - ce) ^ 2 + (rnth ss j' * rnth speeds i' - cn) ^ 2)
+            * (t ^ 2 * cum_jacobian (rnth cgs i'))) (s + j)%nat) n).
+  { induction n as [|n IH]; intros s a.
+    - simpl. lra.
+    - rewrite seq_S, fold_left_app. cbn [fold_left rsum]. rewrite IH. cbv zeta.
+      destruct (Rle_dec (fnth thr i' (s + n)) 0); lra. }
+  rewrite H. f_equal.
+Qed.
+
+Lemma rot_dist : forall c1 c2 C1 S1 C2 S2 ca sa, ca ^ 2 + sa ^ 2 = 1 ->
+  ((C1 * ca - S1 * sa) * c1 - (C2 * ca - S2 * sa) * c2) ^ 2
+  + ((S1 * ca + C1 * sa) * c1 - (S2 * ca + C2 * sa) * c2) ^ 2
+  = (C1 * c1 - C2 * c2) ^ 2 + (S1 * c1 - S2 * c2) ^ 2.
+Proof.
+  intros. set (u := C1 * c1 - C2 * c2). set (v := S1 * c1 - S2 * c2).
+  replace ((C1 * ca - S1 * sa) * c1 - (C2 * ca - S2 * sa) * c2) with (u * ca - v * sa) by (unfold u, v; ring).
+  replace ((S1 * ca + C1 * sa) * c1 - (S2 * ca + C2 * sa) * c2) with (v * ca + u * sa) by (unfold u, v; ring).
+  replace ((u * ca - v * sa) ^ 2 + (v * ca + u * sa) ^ 2) with ((u ^ 2 + v ^ 2) * (ca ^ 2 + sa ^ 2)) by ring.
+  rewrite H. ring.
+Qed.
+
+Lemma cum_row_rot : forall g th0 ds k speeds cgs thr' thr i i' j acc,
+  uniform_dirs g th0 ds -> (k < ndir g)%nat -> (j < ndir g)%nat -> (i' < nfreq g)%nat ->
+  shifted (nfreq g) (ndir g) k thr' thr ->
+  cum_row g (map cos (g_th g)) (map sin (g_th g)) speeds cgs thr'
+          (rnth (map cos (g_th g)) j * rnth speeds i) (rnth (map sin (g_th g)) j * rnth speeds i) i' acc
+  = cum_row g (map cos (g_th g)) (map sin (g_th g)) speeds cgs thr
+          (rnth (map cos (g_th g)) (ridx (ndir g) j k) * rnth speeds i)
+          (rnth (map sin (g_th g)) (ridx (ndir g) j k) * rnth speeds i) i' acc.
+Proof.
+  intros g th0 ds k speeds cgs thr' thr i i' j acc Hu Hk Hj Hi' Hsh.
+  set (cs := map cos (g_th g)). set (ss := map sin (g_th g)).
+  assert (HN : (0 < ndir g)%nat) by lia.
+  pose proof (ridx_lt (ndir g) j k HN) as Hr.
+  rewrite !cum_row_rsum. f_equal.
+  set (a := INR k * (2 * PI / INR (ndir g))).
+  assert (Hcs : forall m, (m < ndir g)%nat -> rnth cs m = cos (ang th0 (ndir g) m)).
+  { intros m Hm. unfold cs. rewrite rnth_map by exact Hm. fold (gth g m). destruct (Hu m Hm) as [-> _]. reflexivity. }
+  assert (Hss : forall m, (m < ndir g)%nat -> rnth ss m = sin (ang th0 (ndir g) m)).
+  { intros m Hm. unfold ss. rewrite rnth_map by exact Hm. fold (gth g m). destruct (Hu m Hm) as [-> _]. reflexivity. }
+  rewrite (rsum_ext _ (fun j' => (fun m =>
+       let t := fnth thr i' m in
+       if Rle_dec t 0 then 0
+       else gdf g i' * gdth g m
+            * sqrt ((rnth cs m * rnth speeds i' - rnth cs (ridx (ndir g) j k) * rnth speeds i) ^ 2
+                    + (rnth ss m * rnth speeds i' - rnth ss (ridx (ndir g) j k) * rnth speeds i) ^ 2)
+            * (t ^ 2 * cum_jacobian (rnth cgs i'))) (ridx (ndir g) j' k)) (ndir g)).
+  2:{ intros j' Hj'. cbv beta zeta.
+      pose proof (ridx_lt (ndir g) j' k HN) as Hr'.
+      rewrite (Hsh i' j' Hi' Hj').
+      destruct (Rle_dec _ 0); [reflexivity|].
+      destruct (Hu j' Hj') as [_ ->]. destruct (Hu _ Hr') as [_ ->].
+      f_equal. f_equal. f_equal.
+      rewrite (Hcs j' Hj'), (Hss j' Hj'), (Hcs j Hj), (Hss j Hj), (Hcs _ Hr'), (Hss _ Hr'), (Hcs _ Hr), (Hss _ Hr).
+      rewrite (cos_abs_rot (ndir g) j' k th0 Hj' Hk), (sin_abs_rot (ndir g) j' k th0 Hj' Hk).
+      rewrite (cos_abs_rot (ndir g) j k th0 Hj Hk), (sin_abs_rot (ndir g) j k th0 Hj Hk).
+      fold a. rewrite !cos_plus, !sin_plus.
+      apply rot_dist. rewrite <- (sin2_cos2 a). unfold Rsqr. ring. }
+  apply (rsum_ridx (fun m =>
+       let t := fnth thr i' m in
+       if Rle_dec t 0 then 0
+       else gdf g i' * gdth g m
+            * sqrt ((rnth cs m * rnth speeds i' - rnth cs (ridx (ndir g) j k) * rnth speeds i) ^ 2
+                    + (rnth ss m * rnth speeds i' - rnth ss (ridx (ndir g) j k) * rnth speeds i) ^ 2)
+            * (t ^ 2 * cum_jacobian (rnth cgs i')))). exact Hk.
+Qed.
+
+Lemma cum_rows_rot : forall g th0 ds k speeds cgs thr' thr i j limit idx acc,
+  uniform_dirs g th0 ds -> (k < ndir g)%nat -> (j < ndir g)%nat ->
+  (forall i', In i' idx -> (i' < nfreq g)%nat) ->
+  shifted (nfreq g) (ndir g) k thr' thr ->
+  cum_rows g (map cos (g_th g)) (map sin (g_th g)) speeds cgs thr'
+           (rnth (map cos (g_th g)) j * rnth speeds i) (rnth (map sin (g_th g)) j * rnth speeds i) limit idx acc
+  = cum_rows g (map cos (g_th g)) (map sin (g_th g)) speeds cgs thr
+           (rnth (map cos (g_th g)) (ridx (ndir g) j k) * rnth speeds i)
+           (rnth (map sin (g_th g)) (ridx (ndir g) j k) * rnth speeds i) limit idx acc.
+Proof.
+  intros g th0 ds k speeds cgs thr' thr i j limit idx. induction idx as [|i' idx IH];
+    intros acc Hu Hk Hj Hidx Hsh; cbn [cum_rows]; [reflexivity|].
+  destruct (Rgt_dec (gw g i') limit); [reflexivity|].
+  rewrite (cum_row_rot g th0 ds k speeds cgs thr' thr i i' j acc Hu Hk Hj (Hidx i' (or_introl eq_refl)) Hsh).
+  apply IH; try assumption. intros. apply Hidx. right. assumption.
+Qed.
+
+Lemma st4_cumulative_rot : forall q g ks cgs B' B E' E th0 ds k,
+  uniform_dirs g th0 ds -> (k < ndir g)%nat ->
+  shifted (nfreq g) (ndir g) k B' B -> shifted (nfreq g) (ndir g) k E' E ->
+  shifted (nfreq g) (ndir g) k (st4_cumulative q g ks cgs B' E') (st4_cumulative q g ks cgs B E).
+Proof.
+  intros q g ks cgs B' B E' E th0 ds k Hu Hk HB HE i j Hi Hj.
+  assert (HN : (0 < ndir g)%nat) by lia.
+  pose proof (ridx_lt (ndir g) j k HN) as Hr.
+  unfold st4_cumulative. destruct (Rgt_dec (cb_const q) 0); cbv zeta.
+  - rewrite !fnth_mk_field by assumption.
+    rewrite (HE i j Hi Hj). f_equal. f_equal.
+    unfold cum_strength.
+    apply (cum_rows_rot g th0 ds k _ cgs _ _ i j _ (seq 0 (nfreq g)) 0 Hu Hk Hj).
+    + intros i' Hin. apply in_seq in Hin. lia.
+    + intros i0 j0 Hi0 Hj0. pose proof (ridx_lt (ndir g) j0 k HN).
+      rewrite !fnth_mk_field by assumption. rewrite (HB i0 j0 Hi0 Hj0). reflexivity.
+  - rewrite !fnth_mk_field by assumption. reflexivity.
+Qed.
+
+Theorem st4_diss_k_rot : forall q g ks cgs E th0 ds k,
+  uniform_dirs g th0 ds -> (k < ndir g)%nat -> well_shaped g E ->
+  shifted (nfreq g) (ndir g) k (st4_dissipation_k q g ks cgs (rot_field k E)) (st4_dissipation_k q g ks cgs E).
+Proof.
+  intros q g ks cgs E th0 ds k Hu Hk Hs i j Hi Hj.
+  assert (HN : (0 < ndir g)%nat) by lia.
+  pose proof (ridx_lt (ndir g) j k HN) as Hr.
+  pose proof (rot_field_shifted g E k Hs Hk) as HE.
+  pose proof (band_saturation_rot q g ks cgs E th0 ds k Hu Hk Hs) as HB.
+  unfold st4_dissipation_k. cbv zeta. rewrite !fnth_mk_field by assumption.
+  rewrite (st4_cumulative_rot q g ks cgs _ _ _ _ th0 ds k Hu Hk HB HE i j Hi Hj).
+  rewrite (st4_saturation_rot q g _ (band_saturation q g ks cgs E) _ E k Hk HE); try assumption.
+  - reflexivity.
+  - intros i0 Hi0. split.
+    + unfold band_saturation at 1. rewrite nth_mk_field_row by exact Hi0.
+      apply map_ext_in. intros j0 Hj0. apply in_seq in Hj0.
+      specialize (HB i0 j0 Hi0 ltac:(lia)). unfold band_saturation in HB at 1.
+      rewrite fnth_mk_field in HB by lia. exact HB.
+    + unfold band_saturation at 1. rewrite nth_mk_field_row by exact Hi0.
+      apply map_ext_in. intros j0 Hj0. apply in_seq in Hj0.
+      unfold band_saturation. rewrite fnth_mk_field by lia. reflexivity.
+Qed.
+
+Theorem st4_diss_rot : forall q depth g E th0 ds k,
+  uniform_dirs g th0 ds -> (k < ndir g)%nat -> well_shaped g E ->
+  shifted (nfreq g) (ndir g) k (st4_dissipation q depth g (rot_field k E)) (st4_dissipation q depth g E).
+Proof. intros. unfold st4_dissipation. cbv zeta. eapply st4_diss_k_rot; eassumption. Qed.
+
+Lemma dir_integrate_mirror : forall g ds S' S,
+  uniform_dirs g 0 ds -> (0 < ndir g)%nat -> mirrored (nfreq g) (ndir g) S' S ->
+  dir_integrate g S' = dir_integrate g S.
+Proof.
+  intros g ds S' S Hu HN Hsh. unfold dir_integrate.
+  apply map_ext_in. intros i Hi. apply in_seq in Hi. rewrite !sum_upto_rsum.
+  rewrite (rsum_ext _ (fun j => (fun m => fnth S i m * ds) (midx (ndir g) j)) (ndir g)).
+  2:{ intros j Hj. cbv beta. rewrite (Hsh i j) by lia. destruct (Hu j Hj) as [_ ->]. reflexivity. }
+  rewrite (rsum_midx (fun m => fnth S i m * ds)) by exact HN.
+  apply rsum_ext. intros j Hj. destruct (Hu j Hj) as [_ ->]. reflexivity.
+Qed.
+
+Theorem st6_diss_k_mirror : forall q g ks cgs E ds,
+  uniform_dirs g 0 ds -> (0 < ndir g)%nat -> well_shaped g E ->
+  mirrored (nfreq g) (ndir g) (st6_dissipation_k q g ks cgs (mir_field E)) (st6_dissipation_k q g ks cgs E).
+Proof.
+  intros q g ks cgs E ds Hu HN Hs i j Hi Hj.
+  pose proof (midx_lt (ndir g) j HN) as Hr.
+  pose proof (mir_field_mirrored g E Hs) as Hsh.
+  unfold st6_dissipation_k. cbv zeta. rewrite !fnth_mk_field by assumption.
+  unfold st6_inherent, st6_cumulative. rewrite !fnth_mk_field by assumption.
+  unfold st6_exceedence. rewrite (dir_integrate_mirror g ds _ E Hu HN Hsh).
+  rewrite (Hsh i j Hi Hj). reflexivity.
+Qed.
+
+Theorem st6_diss_mirror : forall q depth g E ds,
+  uniform_dirs g 0 ds -> (0 < ndir g)%nat -> well_shaped g E ->
+  mirrored (nfreq g) (ndir g) (st6_dissipation q depth g (mir_field E)) (st6_dissipation q depth g E).
+Proof. intros. unfold st6_dissipation. cbv zeta. eapply st6_diss_k_mirror; eassumption. Qed.
+
+(* pymod on [0,p) and uniqueness *)
+Lemma pymod_small : forall r p, 0 <= r < p -> pymod r p = r.
+Proof.
+  intros r p [H0 H1]. unfold pymod.
+  assert (Hp : 0 < p) by lra.
+  assert (Hq : 0 <= r / p < 1).
+  { split; [apply Rmult_le_pos; [lra|left; apply Rinv_0_lt_compat; exact Hp]|].
+    apply (Rmult_lt_reg_r p); [exact Hp|]. unfold Rdiv. rewrite Rmult_assoc, Rinv_l by lra. lra. }
+  assert (Hi : Int_part (r / p) = 0%Z).
+  { unfold Int_part. assert (H : 1%Z = up (r / p)) by (apply tech_up; simpl; lra). rewrite <- H. reflexivity. }
+  rewrite Hi. simpl. ring.
+Qed.
+
+Lemma pymod_unique : forall y p r (a : Z), 0 <= r < p -> y = r + IZR a * p -> pymod y p = r.
+Proof.
+  intros y p r a Hr ->. rewrite pymod_period by lra. apply pymod_small. exact Hr.
+Qed.
+
+(* the wrapped mutual angle of the mirrored pair has the same absolute value and cosine *)
+Lemma mutual_angle_neg : forall x y, (exists n : Z, y = - x + IZR n * (2 * PI)) ->
+  Rabs (pymod (y + PI) (2 * PI) - PI) = Rabs (pymod (x + PI) (2 * PI) - PI) /\
+  cos (pymod (y + PI) (2 * PI) - PI) = cos (pymod (x + PI) (2 * PI) - PI).
+Proof.
+  intros x y [n Hy].
+  pose proof PI_RGT_0 as HPI.
+  assert (H2 : 0 < 2 * PI) by lra.
+  destruct (pymod_range (x + PI) (2 * PI) H2) as [R0 R1].
+  destruct (pymod_shift (x + PI) (2 * PI)) as [a Ha].
+  set (r := pymod (x + PI) (2 * PI)) in *.
+  destruct (Req_dec r 0) as [Hz|Hnz].
+  - assert (Hy' : pymod (y + PI) (2 * PI) = 0).
+    { apply (pymod_unique _ _ 0 (n - a + 1)); [lra|]. rewrite Hy, plus_IZR, minus_IZR. simpl.
+      assert (x + PI = IZR a * (2 * PI)) by lra. lra. }
+    rewrite Hy', Hz. split; reflexivity.
+  - assert (Hy' : pymod (y + PI) (2 * PI) = 2 * PI - r).
+    { apply (pymod_unique _ _ _ (n - a)); [lra|]. rewrite Hy, minus_IZR.
+      assert (x + PI = r + IZR a * (2 * PI)) by lra. lra. }
+    rewrite Hy'. replace (2 * PI - r - PI) with (- (r - PI)) by ring.
+    rewrite Rabs_Ropp, cos_neg. split; reflexivity.
+Qed.
+
+Lemma mutual_angle_mirror : forall N j jj, (j < N)%nat -> (jj < N)%nat ->
+  Rabs (mutual_angle (ang 0 N jj) (ang 0 N j)) = Rabs (mutual_angle (ang 0 N (midx N jj)) (ang 0 N (midx N j))) /\
+  cos (mutual_angle (ang 0 N jj) (ang 0 N j)) = cos (mutual_angle (ang 0 N (midx N jj)) (ang 0 N (midx N j))).
+Proof.
+  intros N j jj Hj Hjj. unfold mutual_angle.
+  destruct (ang_mirror N j Hj) as [m2 H2]. destruct (ang_mirror N jj Hjj) as [m1 H1].
+  apply mutual_angle_neg. exists (m1 - m2)%Z. rewrite H1, H2, minus_IZR. ring.
+Qed.
+
+Lemma band_saturation_mirror : forall q g ks cgs E ds,
+  uniform_dirs g 0 ds -> (0 < ndir g)%nat -> well_shaped g E ->
+  mirrored (nfreq g) (ndir g) (band_saturation q g ks cgs (mir_field E)) (band_saturation q g ks cgs E).
+Proof.
+  intros q g ks cgs E ds Hu HN Hs i j Hi Hj.
+  pose proof (midx_lt (ndir g) j HN) as Hr.
+  pose proof (mir_field_mirrored g E Hs) as Hsh.
+  unfold band_saturation. rewrite !fnth_mk_field by assumption. rewrite !sum_upto_rsum.
+  rewrite (rsum_ext _ (fun jj => (fun m => band_term q g ks cgs E i (midx (ndir g) j) m) (midx (ndir g) jj)) (ndir g)).
+  2:{ intros jj Hjj. cbv beta. unfold band_term. cbv zeta.
+      pose proof (midx_lt (ndir g) jj HN) as Hrr.
+      destruct (Hu j Hj) as [-> _]. destruct (Hu jj Hjj) as [-> ->].
+      destruct (Hu _ Hr) as [-> _]. destruct (Hu _ Hrr) as [-> ->].
+      destruct (mutual_angle_mirror (ndir g) j jj Hj Hjj) as [-> ->].
+      rewrite (Hsh i jj Hi Hjj). reflexivity. }
+  apply (rsum_midx (fun m => band_term q g ks cgs E i (midx (ndir g) j) m)). exact HN.
+Qed.
+
+Lemma midx_invol : forall N j, (j < N)%nat -> midx N (midx N j) = j.
+Proof.
+  intros N j Hj. unfold midx. destruct j as [|j].
+  - rewrite Nat.sub_0_r, Nat.mod_same by lia. rewrite Nat.sub_0_r, Nat.mod_same by lia. reflexivity.
+  - rewrite (Nat.mod_small (N - S j)) by lia. replace (N - (N - S j))%nat with (S j) by lia.
+    apply Nat.mod_small. exact Hj.
+Qed.
+
+Lemma row_max_mirror : forall N (f : nat -> R), (0 < N)%nat ->
+  row_max (map (fun j => f (midx N j)) (seq 0 N)) = row_max (map f (seq 0 N)).
+Proof.
+  intros N f HN.
+  apply row_max_same_elements.
+  - destruct N; [lia|]. simpl. discriminate.
+  - destruct N; [lia|]. simpl. discriminate.
+  - intros y Hy. apply in_map_iff in Hy. destruct Hy as (j & <- & Hj). apply in_seq in Hj.
+    apply in_map_iff. exists (midx N j). split; [reflexivity|]. apply in_seq.
+    pose proof (midx_lt N j HN). lia.
+  - intros y Hy. apply in_map_iff in Hy. destruct Hy as (m & <- & Hm). apply in_seq in Hm.
+    apply in_map_iff. exists (midx N m). split; [rewrite midx_invol by lia; reflexivity|]. apply in_seq.
+    pose proof (midx_lt N m HN). lia.
+Qed.
+
+Lemma st4_saturation_mirror : forall q g B' B E' E,
+  (0 < ndir g)%nat ->
+  mirrored (nfreq g) (ndir g) E' E ->
+  (forall i, (i < nfreq g)%nat ->
+     nth i B' [] = map (fun j => fnth B i (midx (ndir g) j)) (seq 0 (ndir g)) /\
+     nth i B [] = map (fun j => fnth B i j) (seq 0 (ndir g))) ->
+  mirrored (nfreq g) (ndir g) (st4_saturation_breaking q g B' E') (st4_saturation_breaking q g B E).
+Proof.
+  intros q g B' B E' E HN HE HB i j Hi Hj.
+  pose proof (midx_lt (ndir g) j HN) as Hr.
+  unfold st4_saturation_breaking. destruct (Rgt_dec (sb_const q) 0).
+  - rewrite !fnth_mk_field by assumption.
+    destruct (HB i Hi) as [HB1 HB2].
+    assert (Hmax : row_max (nth i B' []) = row_max (nth i B [])).
+    { rewrite HB1, HB2. apply (row_max_mirror (ndir g) (fun j => fnth B i j) HN). }
+    assert (Hb : fnth B' i j = fnth B i (midx (ndir g) j)).
+    { unfold fnth at 1. rewrite HB1. apply (rnth_map_seq (fun j => fnth B i (midx (ndir g) j))). exact Hj. }
+    rewrite Hmax, Hb, (HE i j Hi Hj). reflexivity.
+  - rewrite !fnth_mk_field by assumption. reflexivity.
+Qed.
+
+Lemma cum_row_mirror : forall g ds speeds cgs thr' thr i i' j acc,
+  uniform_dirs g 0 ds -> (0 < ndir g)%nat -> (j < ndir g)%nat -> (i' < nfreq g)%nat ->
+  mirrored (nfreq g) (ndir g) thr' thr ->
+  cum_row g (map cos (g_th g)) (map sin (g_th g)) speeds cgs thr'
+          (rnth (map cos (g_th g)) j * rnth speeds i) (rnth (map sin (g_th g)) j * rnth speeds i) i' acc
+  = cum_row g (map cos (g_th g)) (map sin (g_th g)) speeds cgs thr
+          (rnth (map cos (g_th g)) (midx (ndir g) j) * rnth speeds i)
+          (rnth (map sin (g_th g)) (midx (ndir g) j) * rnth speeds i) i' acc.
+Proof.
+  intros g ds speeds cgs thr' thr i i' j acc Hu HN Hj Hi' Hsh.
+  set (cs := map cos (g_th g)). set (ss := map sin (g_th g)).
+  pose proof (midx_lt (ndir g) j HN) as Hr.
+  rewrite !cum_row_rsum. f_equal.
+  assert (Hcs : forall m, (m < ndir g)%nat -> rnth cs m = cos (ang 0 (ndir g) m)).
+  { intros m Hm. unfold cs. rewrite rnth_map by exact Hm. fold (gth g m). destruct (Hu m Hm) as [-> _]. reflexivity. }
+  assert (Hss : forall m, (m < ndir g)%nat -> rnth ss m = sin (ang 0 (ndir g) m)).
+  { intros m Hm. unfold ss. rewrite rnth_map by exact Hm. fold (gth g m). destruct (Hu m Hm) as [-> _]. reflexivity. }
+  rewrite (rsum_ext _ (fun j' => (fun m =>
+       let t := fnth thr i' m in
+       if Rle_dec t 0 then 0
+       else gdf g i' * gdth g m
+            * sqrt ((rnth cs m * rnth speeds i' - rnth cs (midx (ndir g) j) * rnth speeds i) ^ 2
+                    + (rnth ss m * rnth speeds i' - rnth ss (midx (ndir g) j) * rnth speeds i) ^ 2)
+            * (t ^ 2 * cum_jacobian (rnth cgs i'))) (midx (ndir g) j')) (ndir g)).
+  2:{ intros j' Hj'. cbv beta zeta.
+      pose proof (midx_lt (ndir g) j' HN) as Hr'.
+      rewrite (Hsh i' j' Hi' Hj').
+      destruct (Rle_dec _ 0); [reflexivity|].
+      destruct (Hu j' Hj') as [_ ->]. destruct (Hu _ Hr') as [_ ->].
+      f_equal. f_equal. f_equal.
+      rewrite (Hcs j' Hj'), (Hss j' Hj'), (Hcs j Hj), (Hss j Hj), (Hcs _ Hr'), (Hss _ Hr'), (Hcs _ Hr), (Hss _ Hr).
+      rewrite (cos_abs_mirror (ndir g) j' Hj'), (sin_abs_mirror (ndir g) j' Hj').
+      rewrite (cos_abs_mirror (ndir g) j Hj), (sin_abs_mirror (ndir g) j Hj).
+      ring. }
+  apply (rsum_midx (fun m =>
+       let t := fnth thr i' m in
+       if Rle_dec t 0 then 0
+       else gdf g i' * gdth g m
+            * sqrt ((rnth cs m * rnth speeds i' - rnth cs (midx (ndir g) j) * rnth speeds i) ^ 2
+                    + (rnth ss m * rnth speeds i' - rnth ss (midx (ndir g) j) * rnth speeds i) ^ 2)
+            * (t ^ 2 * cum_jacobian (rnth cgs i')))). exact HN.
+Qed.
+
+Lemma cum_rows_mirror : forall g ds speeds cgs thr' thr i j limit idx acc,
+  uniform_dirs g 0 ds -> (0 < ndir g)%nat -> (j < ndir g)%nat ->
+  (forall i', In i' idx -> (i' < nfreq g)%nat) ->
+  mirrored (nfreq g) (ndir g) thr' thr ->
+  cum_rows g (map cos (g_th g)) (map sin (g_th g)) speeds cgs thr'
+           (rnth (map cos (g_th g)) j * rnth speeds i) (rnth (map sin (g_th g)) j * rnth speeds i) limit idx acc
+  = cum_rows g (map cos (g_th g)) (map sin (g_th g)) speeds cgs thr
+           (rnth (map cos (g_th g)) (midx (ndir g) j) * rnth speeds i)
+           (rnth (map sin (g_th g)) (midx (ndir g) j) * rnth speeds i) limit idx acc.
+Proof.
+  intros g ds speeds cgs thr' thr i j limit idx. induction idx as [|i' idx IH];
+    intros acc Hu HN Hj Hidx Hsh; cbn [cum_rows]; [reflexivity|].
+  destruct (Rgt_dec (gw g i') limit); [reflexivity|].
+  rewrite (cum_row_mirror g ds speeds cgs thr' thr i i' j acc Hu HN Hj (Hidx i' (or_introl eq_refl)) Hsh).
+  apply IH; try assumption. intros. apply Hidx. right. assumption.
+Qed.
+
+Lemma st4_cumulative_mirror : forall q g ks cgs B' B E' E ds,
+  uniform_dirs g 0 ds -> (0 < ndir g)%nat ->
+  mirrored (nfreq g) (ndir g) B' B -> mirrored (nfreq g) (ndir g) E' E ->
+  mirrored (nfreq g) (ndir g) (st4_cumulative q g ks cgs B' E') (st4_cumulative q g ks cgs B E).
+Proof.
+  intros q g ks cgs B' B E' E ds Hu HN HB HE i j Hi Hj.
+  pose proof (midx_lt (ndir g) j HN) as Hr.
+  unfold st4_cumulative. destruct (Rgt_dec (cb_const q) 0); cbv zeta.
+  - rewrite !fnth_mk_field by assumption.
+    rewrite (HE i j Hi Hj). f_equal. f_equal.
+    unfold cum_strength.
+    apply (cum_rows_mirror g ds _ cgs _ _ i j _ (seq 0 (nfreq g)) 0 Hu HN Hj).
+    + intros i' Hin. apply in_seq in Hin. lia.
+    + intros i0 j0 Hi0 Hj0. pose proof (midx_lt (ndir g) j0 HN).
+      rewrite !fnth_mk_field by assumption. rewrite (HB i0 j0 Hi0 Hj0). reflexivity.
+  - rewrite !fnth_mk_field by assumption. reflexivity.
+Qed.
+
+Theorem st4_diss_k_mirror : forall q g ks cgs E ds,
+  uniform_dirs g 0 ds -> (0 < ndir g)%nat -> well_shaped g E ->
+  mirrored (nfreq g) (ndir g) (st4_dissipation_k q g ks cgs (mir_field E)) (st4_dissipation_k q g ks cgs E).
+Proof.
+  intros q g ks cgs E ds Hu HN Hs i j Hi Hj.
+  pose proof (midx_lt (ndir g) j HN) as Hr.
+  pose proof (mir_field_mirrored g E Hs) as HE.
+  pose proof (band_saturation_mirror q g ks cgs E ds Hu HN Hs) as HB.
+  unfold st4_dissipation_k. cbv zeta. rewrite !fnth_mk_field by assumption.
+  rewrite (st4_cumulative_mirror q g ks cgs _ _ _ _ ds Hu HN HB HE i j Hi Hj).
+  rewrite (st4_saturation_mirror q g _ (band_saturation q g ks cgs E) _ E HN HE); try assumption.
+  - reflexivity.
+  - intros i0 Hi0. split.
+    + unfold band_saturation at 1. rewrite nth_mk_field_row by exact Hi0.
+      apply map_ext_in. intros j0 Hj0. apply in_seq in Hj0.
+      specialize (HB i0 j0 Hi0 ltac:(lia)). unfold band_saturation in HB at 1.
+      rewrite fnth_mk_field in HB by lia. exact HB.
+    + unfold band_saturation at 1. rewrite nth_mk_field_row by exact Hi0.
+      apply map_ext_in. intros j0 Hj0. apply in_seq in Hj0.
+      unfold band_saturation. rewrite fnth_mk_field by lia. reflexivity.
+Qed.
+
+Theorem st4_diss_mirror : forall q depth g E ds,
+  uniform_dirs g 0 ds -> (0 < ndir g)%nat -> well_shaped g E ->
+  mirrored (nfreq g) (ndir g) (st4_dissipation q depth g (mir_field E)) (st4_dissipation q depth g E).
+Proof. intros. unfold st4_dissipation. cbv zeta. eapply st4_diss_k_mirror; eassumption. Qed.
+
+Theorem diss_k_vector_mirror : forall g ks ds D' D,
+  uniform_dirs g 0 ds -> (0 < ndir g)%nat -> mirrored (nfreq g) (ndir g) D' D ->
+  diss_k_vector g ks D' = flip2 (diss_k_vector g ks D).
+Proof.
+  intros g ks ds D' D Hu HN Hsh. rewrite !diss_k_vector_sums.
+  set (X := fun i m => rnth ks i * fnth D i m * gdf g i * ds).
+  assert (Hc' : forall i, (i < nfreq g)%nat ->
+     rsum (fun j => rnth ks i * cos (gth g j) * fnth D' i j * gdf g i * gdth g j) (ndir g)
+     = rsum (fun j => rnth ks i * cos (gth g j) * fnth D i j * gdf g i * gdth g j) (ndir g)).
+  { intros i Hi.
+    transitivity (rsum (fun j => cos (ang 0 (ndir g) j) * X i (midx (ndir g) j)) (ndir g)).
+    - apply rsum_ext. intros j Hj. destruct (Hu j Hj) as [-> ->]. rewrite (Hsh i j Hi Hj). unfold X. ring.
+    - rewrite rsum_cos_mirror by exact HN. apply rsum_ext. intros j Hj.
+      destruct (Hu j Hj) as [-> ->]. unfold X. ring. }
+  assert (Hs' : forall i, (i < nfreq g)%nat ->
+     rsum (fun j => rnth ks i * sin (gth g j) * fnth D' i j * gdf g i * gdth g j) (ndir g)
+     = (-1) * rsum (fun j => rnth ks i * sin (gth g j) * fnth D i j * gdf g i * gdth g j) (ndir g)).
+  { intros i Hi.
+    transitivity (rsum (fun j => sin (ang 0 (ndir g) j) * X i (midx (ndir g) j)) (ndir g)).
+    - apply rsum_ext. intros j Hj. destruct (Hu j Hj) as [-> ->]. rewrite (Hsh i j Hi Hj). unfold X. ring.
+    - rewrite rsum_sin_mirror by exact HN.
+      replace (- rsum (fun j => sin (ang 0 (ndir g) j) * X i j) (ndir g))
+        with ((-1) * rsum (fun j => sin (ang 0 (ndir g) j) * X i j) (ndir g)) by ring.
+      f_equal. apply rsum_ext. intros j Hj. destruct (Hu j Hj) as [-> ->]. unfold X. ring. }
+  rewrite (rsum_ext _ _ (nfreq g) Hc'), (rsum_ext _ _ (nfreq g) Hs').
+  rewrite rsum_scal. unfold flip2. cbn [fst snd]. f_equal. ring.
+Qed.
+
+Theorem diss_direction_mirror : forall depth g ds D' D,
+  uniform_dirs g 0 ds -> (0 < ndir g)%nat -> mirrored (nfreq g) (ndir g) D' D ->
+  let v := diss_k_vector g (wavenumbers GRAV depth (g_w g)) D in
+  (fst v <> 0 \/ snd v <> 0) ->
+  cos (diss_direction depth g D' * PI / 180) = cos (- diss_direction depth g D * PI / 180) /\
+  sin (diss_direction depth g D' * PI / 180) = sin (- diss_direction depth g D * PI / 180).
+Proof.
+  intros depth g ds D' D Hu HN Hsh v Hv.
+  unfold diss_direction. cbv zeta.
+  rewrite (diss_k_vector_mirror g _ ds D' D Hu HN Hsh). fold v.
+  exact (dir_deg_flip v Hv).
+Qed.
+
+Corollary st4_diss_bulk_rot : forall q depth g E th0 ds k,
+  uniform_dirs g th0 ds -> (k < ndir g)%nat -> well_shaped g E ->
+  bulk g (st4_dissipation q depth g (rot_field k E)) = bulk g (st4_dissipation q depth g E).
+Proof.
+  intros. eapply bulk_shift_invariant; [eassumption|eassumption|].
+  eapply st4_diss_rot; eassumption.
+Qed.
+
+Corollary st6_diss_bulk_rot : forall q depth g E th0 ds k,
+  uniform_dirs g th0 ds -> (k < ndir g)%nat -> well_shaped g E ->
+  bulk g (st6_dissipation q depth g (rot_field k E)) = bulk g (st6_dissipation q depth g E).
+Proof.
+  intros. eapply bulk_shift_invariant; [eassumption|eassumption|].
+  eapply st6_diss_rot; eassumption.
+Qed.
